@@ -1,0 +1,6 @@
+//go:build verif
+
+package pkcs7
+
+// VerifBER2DER exposes the BER to DER normaliser to the verification harness.
+func VerifBER2DER(b []byte) ([]byte, error) { return ber2der(b) }
